@@ -310,6 +310,6 @@ impl Family for Rereg {
         out.into_iter().map(|s| serde_json::to_value(s).unwrap()).collect()
     }
     fn watchdog_ms(&self) -> u64 {
-        60_000
+        40_000
     }
 }
